@@ -6,7 +6,7 @@ LEVEL = 'other'
 FI = 'checks.fam_iv:'
 EXPLANATION = (
     "Bounded symbolic verification of the algebraic interval routines mpi_add, mpi_sub, mpi_neg, mpi_pos, mpi_abs, mpi_mul, "
-    "mpi_mul_mpf, mpi_square, mpi_div, mpi_div_mpf (and the iv.mpf operators + - * / and reflected forms, unary - + abs) executed "
+    "mpi_mul_mpf, mpi_square, mpi_div, mpi_div_mpf, mpi_pow_int for n = 2..5 (and the iv.mpf operators + - * / and reflected forms, unary - + abs) executed "
     "from /repo's source, which inline the directed-rounding mpf kernels.  Endpoint *kinds* (negative, zero, positive, -inf, "
     "+inf), bit lengths (including endpoints longer than the interval precision) and relative exponents are concrete per "
     "obligation; mantissas and base exponents are symbolic and lower <= upper is assumed.  The solver decides that the returned "
@@ -74,6 +74,11 @@ def obligations(tier, seed=0):
         add('iv_muldiv', fn='mpi_square', prec=3, s=s)
         add('iv_muldiv', fn='mpi_mul_mpf', prec=3, s=s, t=[N(3, 1), N(3, 1)])
         add('iv_muldiv', fn='mpi_div_mpf', prec=3, s=s, t=[P(3, 1), P(3, 1)])
+        # integer powers n >= 2 (sign-case analysis for even/odd n; directed mpf_pow_int on the endpoints)
+        for n in (2, 3, 4, 5):
+            add('iv_muldiv', fn='mpi_pow_int', n=n, prec=3, s=s)
+        add('iv_muldiv', fn='mpi_pow_int', n=3, prec=2, s=s, entry='op')
+        add('iv_muldiv', fn='mpi_pow_int', n=4, prec=2, s=s, entry='op')
     # products far longer than the precision (more than prec+10 bits), every sign pattern of the right operand, left operand
     # straddling zero / one-signed
     for s in ([N(7, 0), P(7, 0)], [P(6, 0), P(7, 1)], [N(7, 1), N(6, 0)]):
